@@ -3,6 +3,7 @@ import AsynqModel.Core.Machine
 import AsynqModel.Core.Wire
 import AsynqModel.Core.Spec
 import AsynqModel.Core.Inv
+import AsynqModel.Proofs.P26Strict
 /-! driver glue for mode `core` (properties C01-C08): replay a program in the machine with the implementation's
     flush choices, diff the traces event by event (projected to the events the property reads), evaluate the
     property's Spec observer on the implementation trace and on the model trace -/
@@ -53,7 +54,10 @@ def choicesOf (tr : List Event) : List (Nat × Nat) :=
     not fired; the machine-checked counterexamples `C04b_nonasync_counterexample` / `C04b_guard_counterexample` show that
     the count legitimately differs otherwise, so the clause is not evaluated on such runs. -/
 def specFor (prop : String) (cx : Spec.Ctx) (guard : Bool) (tr : List Event) : Option (Nat × String) :=
-  match Spec.spec prop cx tr with
+  -- C06 is judged by the STRICT observer (P26.checkC06strict: for tree-shaped programs an open context of a task that awaits the
+  -- running task must be resumed; Spec_C06strict_accepts proves it accepts every machine trace, checkC06strict_of_checkC06 that
+  -- it rejects whatever Spec.checkC06 rejects)
+  match (if prop == "C06" then Spec.specRun P26.checkC06strict cx {} 0 tr else Spec.spec prop cx tr) with
   | some (i, msg) =>
     if msg == "flush-count-differs-from-longest-chain" && (cx.hasNonAsync || guard) then none else some (i, msg)
   | none => none
